@@ -55,6 +55,34 @@ def byte_mutants(rng, texts, n):
     return out
 
 
+WS = ["\t", "\v", "\f", "\r", "\v ", " \f", "\x0b\x0c", "\r\n", "\t\t"]
+
+
+def ws_mutants(rng, texts, n):
+    """valid texts in which one to three separating blanks (or line ends) are replaced / followed by other white-space bytes
+    (TAB, VT, FF, CR): whatever the reader makes of them, it must return or throw"""
+    out = []
+    for i in range(n):
+        s = rng.choice(texts)
+        for _ in range(rng.randint(1, 3)):
+            pos = [k for k, ch in enumerate(s) if ch in " \n"]
+            if not pos:
+                break
+            # the first separator of a line is where a keyword ends: chosen more often
+            firsts = [k for k in pos if s[k] == " " and " " not in s[s.rfind("\n", 0, k) + 1:k]]
+            p = rng.choice(firsts if firsts and rng.random() < 0.5 else pos)
+            w = rng.choice(WS)
+            how = rng.random()
+            if how < 0.5:
+                s = s[:p] + w + s[p + 1:]
+            elif how < 0.8:
+                s = s[:p] + w + s[p:]
+            else:
+                s = s[:p + 1] + w + s[p + 1:]
+        out.append({"id": ["ws", i], "op": "timbuk", "mode": "bad", "text": s, "src": "ws-mutant"})
+    return out
+
+
 def size_family(rng, tier):
     """valid descriptions and raw texts whose SIZE is unusual: very wide rules, very long names, very many states / rules, very long lines
     (a parser or loader must neither crash nor hang on them, and valid ones must round-trip)"""
@@ -91,9 +119,9 @@ def check_C13(tier, seed, res, replay=None):
     res.level = "exploration"
     rd = vlib.rundir("C13", tier)
     res.rule = ("round trip: TLC-enumerated descriptions (1-2 states from a pool of awkward legal names incl. keywords, 3 symbol-name families, <=2 rules, every final set) "
-                "x 4 surface variants (canonical; nullary rules with (); blank lines/extra blanks/q:0 suffixes; empty Ops/States sections), parsed and loaded into all 4 "
+                "x 6 surface variants (canonical; nullary rules with (); blank lines/extra blanks/q:0 suffixes; empty Ops/States sections; rank-less Ops; TAB separators + blanks inside parentheses), parsed and loaded into all 4 "
                 "encodings with dump-load-dump; malformed: every token-level mutant (drop/dup/swap/insert reserved punctuation), every truncation point and line "
-                "drop/dup of 3 base texts (TLC-enumerated) plus seeded byte-level mutants; non-trivial = description has a rule of rank >= 1 (rt) or text differs "
+                "drop/dup of 3 base texts (TLC-enumerated) plus seeded byte-level and white-space (TAB/VT/FF/CR) mutants; non-trivial = description has a rule of rank >= 1 (rt) or text differs "
                 "from every valid serialisation (bad); distinct by content hash")
     res.assumptions = ["'any input text whatsoever' is sampled, not enumerated; memory corruption that does not crash is not observable by this family (no sanitizer)"]
     if replay:
@@ -107,6 +135,7 @@ def check_C13(tier, seed, res, replay=None):
     cases += bad
     valid_texts = [c["text"] for c in cases if c["mode"] == "rt"][:400] or ["Ops a:0\nAutomaton A\nStates q\nFinal States q\nTransitions\na -> q\n"]
     cases += byte_mutants(rng, valid_texts, 60000 if tier == "thorough" else 8000)
+    cases += ws_mutants(rng, valid_texts, 20000 if tier == "thorough" else 3000)
     cases += size_family(rng, tier)
 
     def nt(c):
